@@ -18,7 +18,7 @@ fn main() {
     let mut report: Option<PathBuf> = None;
     let mut replay: Option<PathBuf> = None;
     let mut trace: Option<PathBuf> = None;
-    let mut known_file = PathBuf::from("/verif/known_findings.jsonl");
+    let mut known_file = PathBuf::from("/verif/known_findings.txt");
     let mut replay_dir = PathBuf::from("/verif/replays");
     let mut i = 3;
     while i < args.len() {
@@ -65,16 +65,36 @@ fn main() {
     if let Ok(text) = std::fs::read_to_string(&known_file) {
         for line in text.lines() {
             let line = line.trim();
-            if line.is_empty() || line.starts_with('#') {
+            let (status, rest) = if let Some(r) = line.strip_prefix("open:") {
+                ("open", r.trim())
+            } else if let Some(r) = line.strip_prefix("fixed:") {
+                ("fixed", r.trim())
+            } else {
                 continue;
-            }
-            match serde_json::from_str::<KnownFinding>(line) {
-                Ok(k) => known.push(k),
-                Err(e) => {
-                    eprintln!("bad known-findings line: {e}: {line}");
-                    std::process::exit(2);
+            };
+            let mut property = String::new();
+            let mut signature = String::new();
+            let mut what = Vec::new();
+            for tok in rest.split_whitespace() {
+                if property.is_empty() && tok.starts_with("property=") {
+                    property = tok["property=".len()..].to_string();
+                } else if status == "open" && signature.is_empty() && tok.starts_with("signature=") {
+                    signature = tok["signature=".len()..].to_string();
+                } else {
+                    what.push(tok);
                 }
             }
+            if property.is_empty() || (status == "open" && signature.is_empty()) {
+                eprintln!("bad known-findings line: {line}");
+                std::process::exit(2);
+            }
+            known.push(KnownFinding {
+                status: status.to_string(),
+                property,
+                signature,
+                what: what.join(" "),
+                commit: None,
+            });
         }
     }
     let replay = replay.map(|p| {
